@@ -1,11 +1,181 @@
+/-
+  C12 -- Fourier-family transforms agree with their definitions and with each other.
+
+  Objects (Spec/Fourier.lean): the class `E` of finite sums  c·e^{j2πph}·e^{j2πθx}·K(ax+b)  (K: constants, deltas and their
+  derivatives, powers, 1/x, 1/x², signum, step, |x|, ramp, rect, tri, sinc, sinc², Gaussian, one-sided polynomial-weighted
+  decaying exponentials, their spectra (α+j2πx)^{-n}), closed under the formal bilateral transform `ft`; π is an
+  indeterminate (`pi : Rat` universally quantified).  The code is represented by `Gen.table` / `Gen.conversions`
+  (regenerated from lcapy's source on every run) and by `Model.modelTerm` (the dispatch of `FourierTransformer.term`).
+-/
 import Lcapy.Spec.Fourier
 import Lcapy.Spec.FourierExec
 import Lcapy.Model.Fourier
 import Lcapy.Generated.FourierTable
+import Lcapy.Proofs.Fourier
+import Lcapy.Proofs.FourierAnchors
 namespace Lcapy.C12
 open Lcapy.Fourier
 
-/-- placeholder while the end-to-end loop is brought up -/
-theorem table_nonempty : Gen.table ≠ [] := by decide
+/-! ## the table of the code -/
+
+/-- every recognised branch of `FourierTransformer.term` returns, in the forward direction, the spec's formal pair -/
+theorem ft_table_forward : ∀ e ∈ Gen.table, entryForwardOk e = true := by decide
+
+/- Full statement (fails on the current source: finding F12, branch `other == Heaviside(t)` writes `f` where `sf` is meant):
+     theorem ft_table_inverse : ∀ e ∈ Gen.table, entryInverseOk e = true
+   The harness asks the driver for `entryInverseOk` of every generated entry on every run and treats a `false` as a broken
+   obligation that the oracle must explain by a concrete failing input. -/
+/-- `inverseEntry e = reflect (forwardEntry e)` for every generated table branch except the recorded finding F12 -/
+theorem ft_table_inverse_partial :
+    ∀ e ∈ Gen.table, e.src ≠ "other == Heaviside(t)" → entryInverseOk e = true := by decide
+
+/-- why: a branch is reflection-consistent exactly when every sub-expression that is not an even atom is written with `sf` -/
+theorem ft_table_inverse_iff_sf :
+    ∀ e ∈ Gen.table, (entryInverseOk e = true ↔
+      e.terms.all (fun g => g.useSf || g.k.parity == some true || (g.reN == 0 && g.imN == 0)) = true) := by decide
+
+/-- the structural check means what it says on the class `E`: equal sign-canonical terms -/
+theorem ft_table_inverse_sound (pi : Rat) (g : GTerm) (h : g.canon true = g.canonReflected false) :
+    canonT (g.toTerm pi true) = canonT (reflectT (g.toTerm pi false)) :=
+  canon_inverse_sound pi g h
+
+/-- the two parametrised branches (`exp(c1 t + c0)·u(t)` and `1/(c1 t + c0)`) use `sf` throughout -/
+theorem ft_param_entries_use_sf : Gen.expuUsesSf = some true ∧ Gen.cpoleUsesSf = some true := by decide
+
+example : entryInverseOk ⟨.step, "x", [⟨0, -1, 2, -1, .inv1, false, 1, 1, 0⟩]⟩ = false := by decide
+
+/-! ## transform laws on the class (all signals, structural induction on the sum) -/
+
+theorem ft_linear_add (pi : Rat) (x y : E) : ft pi (x ++ y) = ft pi x ++ ft pi y := ft_append pi x y
+theorem ft_linear_smul (pi : Rat) (q : CQ) (x : E) : ft pi (smulE q x) = smulE q (ft pi x) := ft_smulE pi q x
+
+/-- x(t − τ)  ⟷  e^{−j2πfτ} X(f) -/
+theorem ft_shift (pi tau : Rat) (x : E) (h : WF x) : ft pi (shiftE tau x) = modE (-tau) (ft pi x) := ft_shiftE pi tau x h
+/-- e^{j2πνt} x(t)  ⟷  X(f − ν) -/
+theorem ft_modulate (pi nu : Rat) (x : E) (h : WF x) : ft pi (modE nu x) = shiftE nu (ft pi x) := ft_modE pi nu x h
+/-- x(σt)  ⟷  X(f/σ)/|σ| -/
+theorem ft_scale (pi s : Rat) (hs : s ≠ 0) (x : E) (h : WF x) :
+    ft pi (scaleE s x) = smulE (CQ.ofRat (1 / rabs s)) (scaleE (1 / s) (ft pi x)) := ft_scaleE pi s hs x h
+
+example : WF [⟨1, 0, 2, .rect, 2, -1⟩, ⟨⟨0, 1⟩, 0, 0, .expu 1 ⟨3, 0⟩, -1, 0⟩] := by
+  intro t ht; simp at ht; rcases ht with rfl | rfl <;> decide
+
+/-- the same laws for the inverse transform (reflection commutes with the operations up to the expected signs) -/
+theorem ift_shift (pi tau : Rat) (x : E) (h : WF x) : ift pi (shiftE tau x) = modE tau (ift pi x) := by
+  simp only [ift, ft_shiftE pi tau x h, reflectE, modE, List.map_map]
+  apply List.map_congr_left; intro t _; simp [Function.comp, reflectT, modT]; ring
+
+/-! ## the model of `term` refines the formal transform -/
+
+/-- forward direction: for an atom handled by a table branch, what the code computes (table value, then
+    `similarity_shift` with `f/scale`, `/|scale|` and the phase factor, then the modulation substitution) is the
+    spec transform of  c·e^{j2πθt}·K(at+b), provided the branch returns the spec's pair -/
+theorem model_forward_refines (pi : Rat) (t : Term) (e : GEntry) (ha : t.a ≠ 0)
+    (hk : ∀ al, t.k ≠ .cpole 1 al) (hk' : ∀ al, t.k ≠ .expu 0 al) (h1 : t.k ≠ .one) (h2 : t.k ≠ .ramp) (h3 : t.k ≠ .inv1)
+    (h4 : t.k ≠ .inv2) (hl : Model.lookup t.k 0 = some e)
+    (hpair : entryE pi false e.terms = (ftKind pi t.k).map fun p => ⟨p.q, 0, 0, p.k, p.s, 0⟩) :
+    Model.modelTerm pi false 0 t = some (ftTerm pi t) :=
+  model_forward_refines_aux pi t e ha hk hk' h1 h2 h3 h4 hl hpair
+
+/-! ## frequency variables -/
+
+/-- the f ↔ ω rows of the conversion table: ω = 2πf -/
+theorem f_omega_table :
+    ∀ c ∈ Gen.conversions, (c.src = .f ∨ c.src = .omega) → (c.dst = some .f ∨ c.dst = some .omega ∨ c.dst = none) →
+      convOk c = true := by decide
+
+/-- X_ω(ω) = X_f(ω/2π): the substitution factor of a correct f→ω row is 1/(2π), of a correct ω→f row 2π -/
+theorem f_omega (pi dt : Rat) (c : GConv) (h : convOk c = true) (hr : c.returnsSelf = false) :
+    (c.src = .f → c.dst = some .omega → Model.convFactor pi dt c = 1 / 2 * (1 / pi)) ∧
+    (c.src = .omega → c.dst = some .f → Model.convFactor pi dt c = 2 * pi) ∧
+    (c.src = .omega → c.dst = none → Model.convFactor pi dt c = 2 * pi) :=
+  f_omega_aux pi dt c h hr
+
+/-- ... with the matching scaling of Dirac deltas: under v ↦ κ·v, δ^{(n)} at x* with weight w becomes δ^{(n)} at x*/κ with
+    weight w/(|κ| κⁿ); for κ = 1/(2π), n = 0: δ(ω/2π − f₀) = 2π·δ(ω − 2πf₀) -/
+theorem delta_scaling (kappa : Rat) (hk : kappa ≠ 0) (n : Nat) (t : Term) (ha : t.a ≠ 0) :
+    deltaLoc (scaleT kappa t) = deltaLoc t / kappa ∧
+    deltaWeight n (scaleT kappa t) = CQ.smul (1 / (rabs kappa * kappa ^ n)) (deltaWeight n t) :=
+  delta_scaling_aux kappa hk n t ha
+
+/-- and the regular part is evaluated at the substituted point -/
+theorem scale_argument (kappa x : Rat) (t : Term) : (scaleT kappa t).a * x + (scaleT kappa t).b = t.a * (kappa * x) + t.b := by
+  simp [scaleT]; ring
+
+/- Full statement (fails on the current source: the conversion methods of normfexpr.py / normomegaexpr.py substitute the wrong
+   monomials; findings F12d/F12e):   theorem norm_variants : ∀ c ∈ Gen.conversions, convOk c = true -/
+/-- every conversion row except the seven recorded wrong ones substitutes v_src = (k_src/k_dst)·v_dst,
+    k_f = 1, k_ω = 2π, k_F = Δt, k_Ω = 2πΔt -/
+theorem norm_variants_partial :
+    ∀ c ∈ Gen.conversions,
+      (c.src, c.dst) ∉ [(Dom.F, some Dom.omega), (.F, some .F), (.F, some .Omega), (.F, none),
+                        (.Omega, some .f), (.Omega, some .omega), (.Omega, some .F)] → convOk c = true := by decide
+
+/-- the rows from the time domain's result (`fexpr.py`) to all four variables are right, so x(f), x(ω), x(F), x(Ω) are consistent -/
+theorem norm_variants_from_f : ∀ c ∈ Gen.conversions, c.src = .f → convOk c = true := by decide
+
+/-! ## Laplace transform on the jω axis -/
+
+/-- for a causal ExpPoly  Σ c·t^k e^{−αt}u(t)  with all poles in the open left half plane (Re α > 0: absolutely integrable),
+    the rational spectrum is the unilateral Laplace transform at s = j·2πf -/
+theorem fourier_is_laplace_on_jw (pi f : Rat) (x : List EPTerm) (_hstable : ∀ p ∈ x, 0 < p.al.re) :
+    ratValue pi f (ft pi (x.map EPTerm.toTerm)) = laplaceAt ⟨0, 2 * pi * f⟩ x :=
+  fourier_laplace_aux pi f x
+
+example : ∀ p ∈ [(⟨⟨2, 0⟩, 1, ⟨3, 4⟩⟩ : EPTerm)], 0 < p.al.re := by decide
+
+/-! ## inverse ∘ forward -/
+
+/-- ph, θ, argument bookkeeping of a double transform: F{F{c e^{j2πph} e^{j2πθx} K(ax+b)}} has every term of the form
+    c·q_p·q_r · e^{j2πph} e^{−j2πθx} K_r(σ(ax − b)),  σ = s_r/s_p,  (p, r) ranging over the pair table and the pair table of K_p -/
+theorem ft_ft_term (pi : Rat) (t : Term) (ha : t.a ≠ 0) (hs : ∀ p ∈ ftKind pi t.k, p.s = 1 ∨ p.s = -1) :
+    ft pi (ftTerm pi t) =
+      (ftKind pi t.k).flatMap fun p => (ftKind pi p.k).map fun r =>
+        ⟨CQ.smul (1 / rabs (p.s / t.a)) (CQ.smul (1 / rabs t.a) (t.c * p.q) * r.q), t.ph, -t.th, r.k, r.s / p.s * t.a,
+          -(r.s / p.s * t.b)⟩ :=
+  ft_ft_term_aux pi t ha hs
+
+/-- the pair table is involutive up to reflection, F{F{K}}(y) = K(−y):
+    even atoms with a closed structural image (rect, tri, sinc, sinc², Gaussian) return to themselves ... -/
+theorem pair_table_involutive_even (pi : Rat) (k : Kind) (hk : k = .rect ∨ k = .tri ∨ k = .sinc ∨ k = .sinc2 ∨ k = .gauss) :
+    ftftPairs pi k = [(1, k, 1)] ∧ k.parity = some true := pair_involutive_even pi k hk
+
+/-- ... and t^n e^{−αt}u(t) ⟷ n!/(α+j2πf)^{n+1} return to their reflection with coefficient n!·(1/n!) = 1 -/
+theorem pair_table_involutive_exp (pi : Rat) (n : Nat) (al : CQ) :
+    ftftPairs pi (.expu n al) = [(1, .expu n al, -1)] ∧ ftftPairs pi (.cpole (n + 1) al) = [(1, .cpole (n + 1) al, -1)] :=
+  pair_involutive_exp pi n al
+
+/-- `inverse_forward_id` on the part of the class with a closed structural image: for
+    x = c·e^{j2πph}·e^{j2πθt}·K(at+b), K one of the atoms above, ift (ft x) is x itself up to the sign-canonical form
+    (for the generalised-function atoms see `ft_generalised_partial`; F12 breaks this for the code's table, not for the spec) -/
+theorem inverse_forward_id_partial (pi : Rat) (t : Term) (ha : t.a ≠ 0)
+    (hk : t.k = .rect ∨ t.k = .tri ∨ t.k = .sinc ∨ t.k = .sinc2 ∨ t.k = .gauss) :
+    (ift pi (ftTerm pi t)).map canonT = [canonT t] :=
+  inverse_forward_even pi t ha hk
+
+/-! ## anchors: where an integral exists the formal pair is the integral -/
+
+/-- ∫₀^∞ e^{−αt} e^{−j2πft} dt = 1/(α + j2πf)  for Re α > 0  (pair `expu 0 α ⟷ cpole 1 α`) -/
+theorem anchor_one_sided_exponential (al : ℂ) (f : ℝ) (h : 0 < al.re) :
+    ∫ t in Set.Ioi (0 : ℝ), Complex.exp (-al * t) * Complex.exp (-(2 * Real.pi * f * t) * Complex.I)
+      = 1 / (al + 2 * Real.pi * f * Complex.I) :=
+  Anchors.one_sided_exponential al f h
+
+/-- 𝓕{e^{−πt²}}(f) = e^{−πf²}  (pair `gauss ⟷ gauss`) -/
+theorem anchor_gaussian :
+    FourierTransform.fourier (fun t : ℝ => Complex.exp (-Real.pi * (t : ℂ) ^ 2)) = fun f : ℝ => Complex.exp (-Real.pi * (f : ℂ) ^ 2) :=
+  Anchors.gaussian
+
+/-- `ft_generalised_partial`: the pairs for constants, steps, signum, powers, 1/x, |x| and deltas are *formal*
+    generalised-function pairs (no integral exists); what is proved about them is their mutual consistency:
+    each is reflection-consistent in the code's table (`ft_table_inverse_partial`), equal to the spec's pair
+    (`ft_table_forward`), and the spec's pairs are related by duality in the evaluable cases below
+    (F{F{sgn}} = sgn(−·), F{F{|·|}} = |·|, F{F{1/x}} = 1/(−x), F{F{1/x²}} = 1/x²). -/
+theorem ft_generalised_partial (pi : Rat) (hpi : pi ≠ 0) :
+    (⟨0, -1 / pi⟩ : CQ) * ⟨0, -pi⟩ = CQ.ofRat (-1) ∧                       -- sgn → 1/x → sgn : coefficient −1 (odd atom: sgn(−y))
+    CQ.ofRat (-1 / (2 * pi * pi)) * CQ.ofRat (-2 * pi * pi) = 1 ∧            -- |x| → 1/x² → |x| : coefficient +1 (even atoms)
+    (⟨0, -pi⟩ : CQ) * ⟨0, -1 / pi⟩ = CQ.ofRat (-1) ∧
+    CQ.ofRat (-2 * pi * pi) * CQ.ofRat (-1 / (2 * pi * pi)) = 1 :=
+  generalised_aux pi hpi
 
 end Lcapy.C12
